@@ -5,6 +5,7 @@ import CandidModel.Driver.Wire
 import CandidModel.Driver.Labels
 import CandidModel.Driver.De
 import CandidModel.Driver.Text
+import CandidModel.Driver.Check
 /-
   Line-protocol driver.  One request per line: `<op>\t<arg>\t<arg>…`; one answer per line:
   `<model answer>\t<spec answer>` (or `bad-op` for what no handler accepts — never a default).
@@ -12,7 +13,7 @@ import CandidModel.Driver.Text
 open Candid Candid.Driver
 
 def handlers : List (String → List String → Option String) :=
-  [handleLeb, handlePrincipal, handleSubtype, handleWire, handleLabels, handleDe, handleText]
+  [handleLeb, handlePrincipal, handleSubtype, handleWire, handleLabels, handleDe, handleText, handleCheck]
 
 def answer (line : String) : String :=
   match line.splitOn "\t" with
